@@ -11,6 +11,11 @@
  *    sd-invalid-accepted, sd-valid-rejected, sd-extent, sd-modified-outside.
  *  C (unit level, every case): the static NCvcmaxcontig on random shape/origin/edges, see case_maxcontig.
  *    Failure keys: sd-maxcontig-range, sd-maxcontig-notwhole.
+ *  D (shape and index arithmetic, every case): NC_var_shape / NC_varoffset / NCcoordck
+ *    - on the NC_var of the datasets of the cases A and B as the library compiled them (lib_shape: `varshape`, `varoffset` lines), and
+ *    - at unit level on hand-made NC / NC_var / NC_dim structures (case_shape_unit, case_coordck_unit: `varshape`, `varoffset`, `coordck`),
+ *      including bad dimension ids, a misplaced unlimited dimension, sizes whose byte count wraps in `unsigned long`, non-HDF files.
+ *    Failure keys: sd-shape-last-dsize, sd-shape-stride, sd-offset-range, sd-coordck-oracle.
  */
 #include "mfhdf.h"
 #include "hk.h"
@@ -48,6 +53,68 @@ static void print_list(const int32 *v, int n)
     for (int i = 0; i < n; i++) printf(i ? ",%d" : "%d", (int)v[i]);
 }
 
+
+/* ---------------------------------------------------------------- kind D: shape / dsizes / len / offsets as the library computes them */
+static void print_ulist(const unsigned long *v, int n)
+{
+    if (n == 0) { printf("-"); return; }
+    for (int i = 0; i < n; i++) printf(i ? ",%lu" : "%lu", v[i]);
+}
+
+static void print_llist(const long *v, int n)
+{
+    if (n == 0) { printf("-"); return; }
+    for (int i = 0; i < n; i++) printf(i ? ",%ld" : "%ld", v[i]);
+}
+
+/* T sd varshape <sizes of all dimensions> <dimension ids of the variable> <xszof> <file type> <nc type> => <rank> <shape> <dsizes> <len> | fail */
+static void print_varshape(const NC_array *dims, const NC_var *vp, int ret)
+{
+    int       nd = dims ? (int)dims->count : 0, rank = (int)vp->assoc->count;
+    NC_dim **dp = dims ? (NC_dim **)dims->values : NULL;
+    printf("T sd varshape ");
+    if (nd == 0) printf("-");
+    for (int i = 0; i < nd; i++) printf(i ? ",%d" : "%d", (int)dp[i]->size);
+    printf(" ");
+    if (rank == 0) printf("-");
+    for (int i = 0; i < rank; i++) printf(i ? ",%d" : "%d", vp->assoc->values[i]);
+    printf(" %d %d %d => ", (int)vp->HDFsize, vp->cdf->file_type, (int)vp->type);
+    if (ret < 0) { printf("fail\n"); return; }
+    printf("%d ", ret); print_ulist(vp->shape, rank); printf(" "); print_ulist(vp->dsizes, rank); printf(" %lu\n", vp->len);
+}
+
+/* T sd varoffset <file type> <shape> <xszof> <begin> <recsize> <coords> => <NC_varoffset> */
+static void print_varoffset(NC *handle, NC_var *vp, const long *coords)
+{
+    int rank = (int)vp->assoc->count;
+    unsigned long off = NC_varoffset(handle, vp, coords);
+    printf("T sd varoffset %d ", handle->file_type); print_ulist(vp->shape, rank);
+    printf(" %d %ld %lu ", (int)vp->HDFsize, vp->begin, handle->recsize); print_llist(coords, rank); printf(" => %lu\n", off);
+}
+
+/* the NC_var behind an SDS of an open SD file (cdfid in the top 12 bits of the SD id, variable index in the low 16 bits of the SDS id) */
+static void lib_shape(int32 sd, int32 sds, const int32 *c1, const int32 *c2)
+{
+    NC *handle = NC_check_id((int)((sd >> 20) & 0xfff));
+    NC_var *vp = handle ? NC_hlookupvar(handle, (int)(sds & 0xffff)) : NULL;
+    if (vp == NULL || vp->assoc == NULL) { hk_fail("sd-novar", "no NC_var behind the SDS"); return; }
+    int rank = (int)vp->assoc->count;
+    print_varshape(handle->dims, vp, rank);
+    if (rank == 0 || vp->dsizes == NULL) return;
+    if (vp->dsizes[rank - 1] != (unsigned long)vp->HDFsize) hk_fail("sd-shape-last-dsize", "dsizes[%d] = %lu, element size %d", rank - 1, vp->dsizes[rank - 1], (int)vp->HDFsize);
+    for (int i = 0; i + 1 < rank; i++)
+        if (vp->dsizes[i] != vp->dsizes[i + 1] * vp->shape[i + 1]) hk_fail("sd-shape-stride", "dsizes[%d] = %lu is not dsizes[%d] * shape[%d]", i, vp->dsizes[i], i + 1, i + 1);
+    const int32 *cs[2] = {c1, c2};
+    for (int k = 0; k < 2; k++) {
+        if (cs[k] == NULL) continue;
+        long coords[MAXRANK]; int in = 1;
+        for (int i = 0; i < rank; i++) { coords[i] = cs[k][i]; if (coords[i] < 0 || (!(i == 0 && vp->shape[0] == 0) && (unsigned long)coords[i] >= vp->shape[i])) in = 0; }
+        if (!in) continue;
+        print_varoffset(handle, vp, coords);
+        if (vp->shape[0] != 0 && NC_varoffset(handle, vp, coords) >= vp->len) hk_fail("sd-offset-range", "offset %lu outside the variable (len %lu)", NC_varoffset(handle, vp, coords), vp->len);
+    }
+}
+
 /* ---------------------------------------------------------------- case A: placement */
 static void case_placement(int k)
 {
@@ -76,6 +143,11 @@ static void case_placement(int k)
     if (sd == FAIL) { hk_fail("sd-start", "create"); free(vals); return; }
     if (hk_chance(50)) SDsetfillmode(sd, SD_NOFILL);
     int32 sds = SDcreate(sd, "v", DFNT_INT32, rank, dims);
+    { /* kind D: the compiled shape of this variable, the byte offsets of the first and of the last cell of the request */
+        int32 last[MAXRANK];
+        for (int i = 0; i < rank; i++) last[i] = start[i] + (count[i] - 1) * stride[i];
+        lib_shape(sd, sds, start, last);
+    }
     int all1 = 1; for (int i = 0; i < rank; i++) if (stride[i] != 1) all1 = 0;
     intn r = SDwritedata(sds, start, (all1 && hk_chance(50)) ? NULL : stride, count, vals);
     if (r == FAIL) hk_fail("sd-valid-rejected", "placement write rejected");
@@ -267,6 +339,11 @@ static void case_array(int k)
     if (s.userfill && SDsetfillvalue(sds, s.fill) == FAIL) hk_fail("sd-setfill", "nt %d", (int)s.nt);
     if (s.unlimited && hk_chance(40)) { SDsetblocksize(sds, (int32)hk_range(1, 200)); s.smallblocks = 1; }
     printf("INFO rank=%d nt=%d unlimited=%d fill=%d userfill=%d dims=", s.rank, (int)s.nt, s.unlimited, s.fillmode, s.userfill); print_list(s.dims, s.rank); printf("\n");
+    { /* kind D: the compiled shape (unlimited first dimension = 0), the byte offset of the last cell of the shadow extent */
+        int32 lastc[MAXRANK];
+        for (int i = 0; i < s.rank; i++) lastc[i] = s.dims[i] - 1;
+        lib_shape(sd, sds, lastc, NULL);
+    }
 
     int nops = (int)hk_range(3, 14);
     long *ix = malloc(sizeof(long) * MAXCELLS);
@@ -449,10 +526,124 @@ static void case_maxcontig(void)
     }
 }
 
+
+/* ---------------------------------------------------------------- kind D at unit level: NC_var_shape + NC_varoffset on hand-made structures */
+static void case_shape_unit(void)
+{
+    int reps = (int)hk_range(1, 3);
+    for (int rep = 0; rep < reps; rep++) {
+        int     nd = (int)hk_range(1, 6), rank = hk_chance(8) ? 0 : (int)hk_range(1, 5);
+        NC_dim  dim[6]; NC_dim *dimp[6];
+        int     ids[MAXRANK];
+        int     big = hk_chance(12), unl = hk_chance(35) ? 0 : -1;
+        memset(dim, 0, sizeof dim);
+        for (int i = 0; i < nd; i++) {
+            dim[i].size = (int32)hk_range(1, 6);
+            if (big) dim[i].size = (int32)(hk_chance(50) ? hk_range(60000, 70000) : hk_range(2147483000L, 2147483647L));
+            dimp[i] = &dim[i];
+        }
+        if (unl == 0) dim[0].size = NC_UNLIMITED;
+        for (int i = 0; i < rank; i++) {
+            ids[i] = (int)hk_range(unl == 0 && i > 0 && nd > 1 ? 1 : 0, nd - 1);
+            if (i == 0 && unl == 0 && hk_chance(70)) ids[0] = 0;
+        }
+        if (rank > 0 && hk_chance(12)) { /* an invalid request: bad id, or the unlimited dimension at an index other than 0 */
+            int k = (int)hk_range(0, rank - 1);
+            switch ((int)hk_range(0, 2)) {
+                case 0: ids[k] = -(int)hk_range(1, 3); break;
+                case 1: ids[k] = nd + (int)hk_range(0, 2); break;
+                default: if (unl == 0 && rank > 1) ids[(int)hk_range(1, rank - 1)] = 0; break;
+            }
+        }
+        NC cdf; NC_var var; NC_iarray assoc; NC_array dims;
+        memset(&cdf, 0, sizeof cdf); memset(&var, 0, sizeof var); memset(&assoc, 0, sizeof assoc); memset(&dims, 0, sizeof dims);
+        cdf.file_type = hk_chance(60) ? HDF_FILE : netCDF_FILE;
+        cdf.recsize = (unsigned long)hk_range(0, 5000);
+        dims.count = (unsigned)nd; dims.values = (uint8_t *)dimp;
+        assoc.count = (unsigned)rank; assoc.values = ids;
+        var.assoc = &assoc; var.cdf = &cdf; var.shape = NULL; var.dsizes = NULL;
+        var.type = (nc_type)hk_range(NC_BYTE, NC_DOUBLE);
+        { static const int32 SZ[] = {1, 2, 4, 8}; var.HDFsize = HK_PICK(SZ); }
+        var.len = 777; var.begin = hk_range(0, 4000);
+        int ret = NC_var_shape(&var, &dims);
+        print_varshape(&dims, &var, ret);
+        hk_stat(ret < 0 ? "varshape_fail" : big ? "varshape_big" : "varshape_ok", 1);
+        if (ret >= 1) {
+            /* oracle: the last stride is the element size; each stride is the next one times the next extent (in unsigned long, as stored) */
+            if (var.dsizes[rank - 1] != (unsigned long)var.HDFsize) hk_fail("sd-shape-last-dsize", "unit: dsizes[%d] = %lu, element size %d", rank - 1, var.dsizes[rank - 1], (int)var.HDFsize);
+            for (int i = 0; i + 1 < rank; i++)
+                if (var.dsizes[i] != var.dsizes[i + 1] * var.shape[i + 1]) hk_fail("sd-shape-stride", "unit: dsizes[%d]", i);
+            int noff = (int)hk_range(1, 3);
+            for (int q = 0; q < noff; q++) {
+                long coords[MAXRANK];
+                for (int i = 0; i < rank; i++) {
+                    unsigned long ext = var.shape[i];
+                    coords[i] = (i == 0 && ext == 0) ? hk_range(0, 9) : (ext > 6 ? hk_range(0, 6) : hk_range(0, (long)ext - 1));
+                    if (hk_chance(5)) coords[i] += hk_range(1, 3); /* NC_varoffset itself does not check */
+                }
+                print_varoffset(&cdf, &var, coords);
+            }
+        }
+        free(var.shape); free(var.dsizes);
+    }
+}
+
+/* ---------------------------------------------------------------- kind D at unit level: NCcoordck on hand-made structures
+ *   T sd coordck <file type> <x_op> <nc_API?> <flags> <vp numrecs> <handle numrecs> <shape> <coords> => <TRUE/FALSE> <vp numrecs> <handle numrecs> <flags>
+ * The fill-on-extend I/O (Hwrite / NCfillrecord / xdr_numrecs) cannot run on a hand-made handle: NC_NOFILL is set and NC_NSYNC is clear
+ * whenever the record dimension can grow, so that only the decisions and the record bookkeeping are exercised here (the fill path runs in kind B). */
+static void case_coordck_unit(void)
+{
+    int reps = (int)hk_range(1, 4);
+    for (int rep = 0; rep < reps; rep++) {
+        int rank = (int)hk_range(1, 5), rec = hk_chance(45);
+        unsigned long shape[MAXRANK]; long coords[MAXRANK];
+        for (int i = 0; i < rank; i++) {
+            shape[i] = (unsigned long)hk_range(1, 6);
+            coords[i] = hk_range(0, (long)shape[i] - 1);
+        }
+        if (rec) { shape[0] = 0; coords[0] = hk_range(0, 8); }
+        if (hk_chance(30)) {
+            int k = (int)hk_range(0, rank - 1);
+            switch ((int)hk_range(0, 2)) {
+                case 0: coords[k] = -hk_range(1, 3); break;
+                case 1: coords[k] = (long)shape[k] + hk_range(0, 2); break;
+                default: coords[k] = (long)shape[k]; break;
+            }
+        }
+        NC handle; NC_var var; NC_iarray assoc; NC_string name; XDR xdr; char nm[2] = "v";
+        memset(&handle, 0, sizeof handle); memset(&var, 0, sizeof var); memset(&assoc, 0, sizeof assoc); memset(&name, 0, sizeof name); memset(&xdr, 0, sizeof xdr);
+        handle.file_type = hk_chance(60) ? HDF_FILE : netCDF_FILE;
+        handle.xdrs = &xdr; xdr.x_op = hk_chance(55) ? XDR_ENCODE : XDR_DECODE;
+        handle.numrecs = (unsigned)hk_range(0, 8);
+        handle.flags = NC_NOFILL | (hk_chance(30) ? NC_NDIRTY : 0) | (hk_chance(30) ? NC_RDWR : 0);
+        if (!rec && hk_chance(50)) handle.flags = (hk_chance(50) ? NC_NSYNC : 0) | (hk_chance(50) ? NC_RDWR : 0); /* a fixed-size variable never reaches the I/O */
+        var.assoc = &assoc; assoc.count = (unsigned)rank; var.shape = shape; var.name = &name; name.values = nm; name.len = 1; name.count = 2;
+        var.numrecs = (int)hk_range(0, 6); var.aid = FAIL; var.HDFsize = 4; var.szof = 4; var.len = 4;
+        const char *saved = cdf_routine_name;
+        cdf_routine_name = hk_chance(50) ? "ncvarget" : "SDreaddata";
+        int api = nc_API(cdf_routine_name);
+        unsigned f0 = handle.flags, h0 = handle.numrecs; int v0 = var.numrecs;
+        bool_t r = NCcoordck(&handle, &var, coords);
+        cdf_routine_name = saved;
+        printf("T sd coordck %d %d %d %u %d %u ", handle.file_type, (int)xdr.x_op, api, f0, v0, h0);
+        print_ulist(shape, rank); printf(" "); print_llist(coords, rank);
+        printf(" => %d %d %u %u\n", r ? 1 : 0, var.numrecs, handle.numrecs, handle.flags);
+        /* implementation-side oracle: a coordinate outside a fixed extent is never accepted, an accepted request never shrinks a record count */
+        for (int i = rec ? 1 : 0; i < rank; i++)
+            if (r && (coords[i] < 0 || (unsigned long)coords[i] >= shape[i])) hk_fail("sd-coordck-oracle", "coordinate %d = %ld accepted (extent %lu)", i, coords[i], shape[i]);
+        if (r && rec && coords[0] < 0) hk_fail("sd-coordck-oracle", "negative record index accepted");
+        if (var.numrecs < v0 || handle.numrecs < h0) hk_fail("sd-coordck-oracle", "record count went down");
+        hk_stat(r ? "coordck_true" : "coordck_false", 1);
+    }
+}
+
 static void run_case(int k)
 {
     if (k % 3 == 0) case_placement(k); else case_array(k);
     case_maxcontig(); /* after the older kinds: their random streams stay what they were */
+    case_shape_unit();
+    case_coordck_unit();
 }
 
 int main(int argc, char **argv) { extern int H4_ncopts; H4_ncopts = getenv("HK_DEBUG") ? 2 : 0; return hk_main(argc, argv, "sd"); }
